@@ -14,7 +14,15 @@ import PrologVerif.Spec.Relations
        candidates are ground; member/2 and select/3 count one answer per position);
      * generating modes (functor/3, length/2) bind to fresh, pairwise distinct variables;
      * truncated enumerations (k answers taken): the prefix is judged, and for between/3 and
-       length/2 the n-th answer must be the n-th tuple.
+       length/2 the n-th answer must be the n-th tuple;
+     * calls on OPEN lists (unbound tail; infinitely many answers): the tail is closed with every
+       list up to length 2 over a fresh constant and the constants of the call, and every resulting
+       tuple of the relation must be covered by an answer no later than its position
+       (`openUniverse`) — an answer that closes the tail by itself is caught here;
+     * non-ground data: the most general common instance of a candidate and the call (verified
+       unifier) must be covered.
+  Stream c16.conj reuses all of this: its payload is the same call plus a representation directive
+  (runner only) and unifications executed after the call, which are applied to the call first.
   The instance test is the verified one-way matcher (Proofs/RelMatch: `matchL_isSome_iff`).
 -/
 namespace PrologVerif.Driver.C16
@@ -138,11 +146,11 @@ def candUniverse (pred : String) (args : List Term) : Option (List (List Term)) 
     | some es => some [[l, .int (Int.ofNat es.length)]]
     | none => none
   | "append", [x, y, z] =>
-    match Relations.asList x with
-    | some xs => some [[x, y, Term.list xs y]]
+    match Relations.asList z with
+    | some zs => some ((List.range (zs.length + 1)).map fun i => [Term.list (zs.take i), Term.list (zs.drop i), z])
     | none =>
-      match Relations.asList z with
-      | some zs => some ((List.range (zs.length + 1)).map fun i => [Term.list (zs.take i), Term.list (zs.drop i), z])
+      match Relations.asList x with
+      | some xs => some [[x, y, Term.list xs y]]
       | none => none
   | "member", [_, l] => if l.spine.2 = Term.nilT then some (l.spine.1.map fun e => [e, l]) else none
   | "select", [_, l, _] =>
@@ -150,6 +158,49 @@ def candUniverse (pred : String) (args : List Term) : Option (List (List Term)) 
       some ((List.range l.spine.1.length).filterMap fun i => l.spine.1[i]?.map fun e => [e, l, Term.list (l.spine.1.eraseIdx i)])
     else none
   | _, _ => none
+
+/-! ### calls on open lists: the universe after closing the unbound tail
+
+  A call whose list argument ends in an unbound variable has infinitely many answers.  Its tuples are
+  sampled by closing the tail with every list up to length 2 over a fresh constant and the atomic
+  constants of the call; each sample carries a rank: the position (for append/length: the number of
+  generated elements) at which the enumeration reaches it.  A sample of rank r must be covered by one
+  of the first r+1 answers. -/
+
+def isGroundAtomic : Term → Bool
+  | .var _ => false
+  | .app _ _ => false
+  | _ => true
+
+def closedTails (args : List Term) : List (List Term) :=
+  let consts := ((Term.atom "$c" :: (args ++ args.flatMap fun a => a.spine.1).filter isGroundAtomic).eraseDups).take 3
+  [[]] ++ consts.map (fun a => [a]) ++ consts.flatMap fun a => consts.map fun b => [a, b]
+
+def tailVar (t : Term) : Option Nat :=
+  match t.spine.2 with
+  | .var v => some v
+  | _ => none
+
+def openUniverse (pred : String) (args : List Term) : Option (List (Nat × List Term)) :=
+  let primary : Option Term := match pred, args with
+    | "member", [_, l] => some l
+    | "select", [_, l, _] => some l
+    | "length", [l, _] => some l
+    | "append", [x, _, z] => if (tailVar z).isSome then some z else some x
+    | _, _ => none
+  match primary.bind tailVar with
+  | none => none
+  | some v =>
+    let byLength := pred == "append" || pred == "length"
+    let base := match args with | a :: _ => a.spine.1.length | [] => 0
+    some ((closedTails args).flatMap fun r =>
+      let args' := args.map (substT (bind1 v (Term.list r)))
+      match candUniverse pred args' with
+      | none => []
+      | some u =>
+        (u.zip (List.range u.length)).map fun (c, i) =>
+          let rank := if byLength then (match c with | x :: _ => x.spine.1.length - base | [] => 0) else i
+          (rank, c))
 
 /-! ### the judge -/
 
@@ -243,7 +294,15 @@ def judge (pred : String) (k : Nat) (args : List Term) (impl : Impl) : String :=
       let dupOk := pred == "member" || pred == "select"
       let truncated := answers.length ≥ k
       match candUniverse pred args with
-      | none => if dupOk || nodup answers then "ok" else "FAIL an answer is given twice"
+      | none =>
+        if !(dupOk || nodup answers) then "FAIL an answer is given twice" else
+        match openUniverse pred args with
+        | none => "ok"
+        | some ou =>
+          let due := ou.filter fun (r, c) => holdsB c && isInstance args c && (!truncated || r < answers.length)
+          match due.find? (fun (_, c) => !answers.any (fun a => isInstance a c)) with
+          | some (r, c) => s!"FAIL tuple {row c} of the relation matches the call (position {r} of the enumeration) but none of the {answers.length} answers covers it"
+          | none => "ok"
       | some u =>
         let expected := u.filter fun c => holdsB c && isInstance args c
         if u.all groundL then
@@ -260,7 +319,15 @@ def judge (pred : String) (k : Nat) (args : List Term) (impl : Impl) : String :=
           if !(dupOk || nodup answers) then "FAIL an answer is given twice"
           else if truncated then "ok"
           else
-            match expected.find? (fun c => !answers.any (fun a => isInstance a c)) with
+            -- non-ground data: the most general common instance of the candidate and the call
+            -- (the model's unifier is a verified most general unifier: unifyE_sound / unifyE_complete)
+            let common := u.filterMap fun c =>
+              if holdsB c then
+                match unifyM (tuple args) (tuple c) with
+                | some δ => let c' := c.map (substT δ); if holdsB c' then some c' else none
+                | none => none
+              else none
+            match (expected ++ common).find? (fun c => !answers.any (fun a => isInstance a c)) with
             | some c => s!"FAIL tuple {row c} of the relation matches the call but no answer covers it"
             | none => "ok"
 
@@ -301,5 +368,35 @@ def handler : Handler := fun payload impl =>
       else (showResult k r, "FAIL the model's unifier ran out of fuel on this case (outside the verified domain)")
     | none => ("BAD-CASE", "-")
   | none => ("BAD-CASE", "-")
+
+/-! ### stream c16.conj: `<call> @ repr <name> <seed> [@ V<n> <term>]…`
+
+  The representation directive concerns the runner only.  The unifications after the call are
+  applied to the call: the model and the specification judge the effective (instantiated) call. -/
+
+def parsePost (s : String) : Option (Nat × Term) :=
+  match parseTerms s with
+  | some [.var v, t] => some (v, t)
+  | _ => none
+
+/-- `V₁ = t₁, V₂ = t₂, …` in this order (a later term is taken under the earlier bindings) -/
+def applyPosts (args : List Term) (posts : List (Nat × Term)) : List Term :=
+  (posts.foldl (fun (st : List Term × (Nat → Term)) (p : Nat × Term) =>
+    let β := bind1 p.1 (substT st.2 p.2)
+    (st.1.map (substT β), fun v => substT β (st.2 v))) (args, Term.var)).1
+
+def conjHandler : Handler := fun payload impl =>
+  match payload.splitOn " @ " with
+  | call :: _repr :: posts =>
+    match parseCase call, posts.mapM parsePost with
+    | some (pred, k, args), some ps =>
+      let args' := applyPosts args ps
+      match Rel.call pred k args' with
+      | some r =>
+        if definedOk pred k args' then (showResult k r, judge pred k args' (parseImpl impl))
+        else (showResult k r, "FAIL the model's unifier ran out of fuel on this case (outside the verified domain)")
+      | none => ("BAD-CASE", "-")
+    | _, _ => ("BAD-CASE", "-")
+  | _ => ("BAD-CASE", "-")
 
 end PrologVerif.Driver.C16
